@@ -65,8 +65,9 @@ def ctor_kinds(c, R, enum_paths, pairs):
 
 
 def rule_r5(chk, c, R, A):
-    r = chk.rule("C01.R5", "a constructor handler passes its argument registers at the field index the checker recorded "
-                           "for each argument (named arguments written out of declaration order reach their own fields)")
+    r = chk.rule("C01.R5", "a constructor handler consults, for each argument it generates, the field index the checker "
+                           "recorded for it (named arguments written out of declaration order must reach their own "
+                           "fields); how the index is used to place the register is not decided")
     pairs = A.record_pairs
     if not r.anchor("checker record (insert_X / get_X -> Option<usize> on the node-lookup type)", pairs):
         return
